@@ -1,0 +1,19 @@
+//go:build verif
+
+package basestreamseeder
+
+import "sync/atomic"
+
+// VerifPendingResponsesSize returns the memory size of the responses that are enqueued for sending
+// but not sent yet (the quantity bounded by Config.MaxPendingResponsesSize). Read-only; it exists
+// only under the `verif` build tag.
+func (s *BaseSeeder) VerifPendingResponsesSize() int64 {
+	return atomic.LoadInt64(&s.pendingResponsesSize)
+}
+
+// VerifQueuedNotifications returns how many request / unregistration notifications have not been
+// taken by the reader loop yet. Read-only; it exists only under the `verif` build tag so that a
+// test driver can tell when a notification has been picked up.
+func (s *BaseSeeder) VerifQueuedNotifications() int {
+	return len(s.notifyUnregisteredPeer) + len(s.notifyReceivedRequest)
+}
